@@ -21,7 +21,7 @@ def shape(name, nn, nd, dc, which, pad=0, tier="quick", timeout=1200):
              domain=LAT + "constructive oracle (q, r) exact", free_bits=free, fns=fns, role="c14::" + kern)
 
 
-PROBED_OK = {"div_2x1"}   # kernel-shape harnesses that finished in a measured probe (name -> registered)
+PROBED_OK = {"div_2x1", "div_2x1_spec", "div_3x2_spec", "nx1_3_norm_spec"}   # kernel-shape harnesses that finished in a measured probe (name -> registered)
 
 
 def harnesses():
@@ -46,6 +46,20 @@ def _all():
                  fns=["div_2x1", "reciprocal"], free_bits=20,
                  domain="d = 1|row in {0,85,170,255}|fill|low(2); q pattern limb (8 free bits x 4 placements); r small or "
                         "d-1-small; u = q*d + r built exactly (measured 632 s)"))
+    RS = [("ruint::algorithms::div::reciprocal::reciprocal_mg10", "stubs::reciprocal_spec")]
+    out.append(H("c14_div_2x1_spec", "C14", "c14::div_2x1", unwind=3, tier="thorough", timeout=3600, inst="div_2x1",
+                 fns=["div_2x1"], free_bits=20, stubs=RS, abstract=True,
+                 domain="as c14_div_2x1, with reciprocal() replaced by its specification (unique v with "
+                        "(2^64+v)*d <= 2^128-1 < (2^64+v+1)*d), which c14_reciprocal decides separately"))
+    RS2 = RS + [("ruint::algorithms::div::reciprocal::reciprocal_2_mg10", "stubs::reciprocal_2_spec")]
+    out.append(H("c14_div_3x2_spec", "C14", "c14::div_3x2", unwind=5, tier="thorough", timeout=7200, inst="div_3x2",
+                 fns=["div_3x2"], free_bits=30, stubs=RS2, abstract=True,
+                 domain="d1 = 1|row in {0,85,170,255}|fill, d0 pattern limb; q pattern limb; r small or d-1-small; "
+                        "u = q*d + r built exactly; reciprocal_2() replaced by its specification"))
+    h = shape("nx1_3_norm_spec", 3, 1, 0x5, 0, tier="thorough", timeout=7200)
+    h.stubs = RS
+    h.abstract = True
+    out.append(h)
     out.append(H("c14_div_3x2", "C14", "c14::div_3x2", unwind=5, tier="quick", timeout=1800, inst="div_3x2",
                  fns=["div_3x2", "reciprocal_2"], free_bits=38,
                  domain="d1 = 1|row(8)|fill, d0 pattern limb; q pattern limb; r small or d-1-small; u = q*d + r"))
